@@ -22,7 +22,7 @@ LEVEL = "fault_enumeration"
 ENGINE = "sansio"
 BUDGET = {"quick": (400, 20), "thorough": (20000, 240)}
 WORKERS = {"quick": 4, "thorough": 16}
-REQUIRED = ["h2.cases", "order", "final", "fault.client_cut", "fault.server_cut", "fault.connect_refused", "policy.kill", "policy.set_response", "policy.stream"]
+REQUIRED = ["h2.cases", "h2.fault.connect_refused", "order", "final", "fault.client_cut", "fault.server_cut", "fault.connect_refused", "policy.kill", "policy.set_response", "policy.stream"]
 TECHNIQUE = "runtime monitoring: fault-position sweep on the sans-io driver + per-flow hook-order automaton"
 RULE = (
     "case = (spec of 1-3 HTTP/1 requests, fault kind and position, per-hook addon action vector, option toggles); quick samples offsets, "
@@ -184,6 +184,18 @@ def run_h2(ctx, opts):
     opts.update(http2_ping_keepalive=0)
     captured = {}
     c05.DEBUG = lambda loc: captured.update(d=loc["d"], topo=loc["topo"], mode=loc["mode"], streams=loc["streams"], server_rst_tags=loc["server_rst_tags"])
+    refused = [None]
+
+    def open_plan_factory(r):
+        # connect failure injected into 35% of the cases: the n-th upstream connection attempt is refused (several concurrent
+        # streams may be waiting for that one attempt)
+        refused[0] = r.choice([0, 0, 0, 1, 2]) if r.random() < 0.35 else None
+        if refused[0] is None:
+            return None
+        ctx.count("h2.fault.connect_refused")
+        return lambda drv, conn, n, k=refused[0]: "Connection refused (injected)" if n == k else None
+
+    c05.OPEN_PLAN = open_plan_factory
     try:
         for i in ctx.cases():
             captured.clear()
@@ -201,12 +213,13 @@ def run_h2(ctx, opts):
             for e in d.exceptions:
                 ctx.seen("layer_exceptions", f"{e[0]}@{e[1]}")
             n_rst = sum(1 for s_ in captured["streams"] if s_.get("rst_at") is not None)
-            witness = {"leg": "h2", "topo": captured["topo"], "mode": captured["mode"], "client_rst_streams": n_rst, "origin_rst": len(captured["server_rst_tags"]), "all_hooks": d.hook_names()[:120], "exceptions": [e[:2] for e in d.exceptions]}
+            witness = {"leg": "h2", "topo": captured["topo"], "mode": captured["mode"], "client_rst_streams": n_rst, "origin_rst": len(captured["server_rst_tags"]), "connect_refused_attempt": refused[0], "all_hooks": d.hook_names()[:120], "exceptions": [e[:2] for e in d.exceptions]}
             seqs = check_lifecycle(ctx, d, witness)
-            sig = ("h2", captured["topo"], captured["mode"].split(":")[0], min(n_rst, 3), min(len(captured["server_rst_tags"]), 3), tuple(sorted(set(seqs)))[:6])
-            ctx.case(sig, bool(n_rst or captured["server_rst_tags"]), {"leg": "h2", "topo": captured["topo"], "flows": seqs[:6]})
+            sig = ("h2", captured["topo"], captured["mode"].split(":")[0], min(n_rst, 3), min(len(captured["server_rst_tags"]), 3), refused[0], tuple(sorted(set(seqs)))[:6])
+            ctx.case(sig, bool(n_rst or captured["server_rst_tags"] or refused[0] is not None), {"leg": "h2", "topo": captured["topo"], "flows": seqs[:6]})
     finally:
         c05.DEBUG = None
+        c05.OPEN_PLAN = None
         opts.update(http2_ping_keepalive=old_ka)
 
 
